@@ -184,14 +184,22 @@ _RANGE = {
 }
 
 
-def concretise(fam, cl, rep, rng):
+EXT_KIND = {"shape": [0.1, 0.3, 0.5, 25.0], "kappa": [0.05, 0.1, 0.3, 45.0], "ratio": [0.05, 0.1, 0.3, 5.0],
+            "scale": [1e-8, 1e8], "logscale": [1e-8, 1e8], "invscale": [1e-8, 1e8]}
+EXT_NAME = {("LogNormal", "sigma"): [0.05, 0.1, 0.3, 4.0]}
+
+
+def concretise(fam, cl, rep, rng, ext=(0, 0)):
     """numbers for one parameter class; rep 0 = canonical values, rep > 0 = seeded random in
     the class range (log-uniform for positive ranges).  A location is given in units of the
     scale so that it matters at every order of magnitude."""
     raw = {}
     for (kind, name), c in zip(LAW_SLOTS[fam], cl):
         k = {"logscale": "scale", "invscale": "scale"}.get(kind, kind)
-        if rep == 0:
+        slot = [nm for _, nm in LAW_SLOTS[fam]].index(name) + 1
+        if ext[0] == slot:      # extreme level of this slot (spec/DistLawsOps.tla ExtremeCases)
+            v = EXT_NAME.get((fam, name), EXT_KIND[kind])[ext[1] - 1]
+        elif rep == 0:
             v = _CANON[k][c]
         else:
             lo, hi = _RANGE[k][c]
